@@ -23,6 +23,7 @@ package main
 //@ func (*serverApp).init$3
 //@   before call stage.New assert roots-from-escaped-source: called(strings.ReplaceAll) && lastarg(strings.ReplaceAll, 0) == source && lastarg(strings.ReplaceAll, 1) == old(pathSep) && lastarg(strings.ReplaceAll, 2) == old(pathSepRepl) && arg0 == source && arg1 == pathjoin(old(dirs.Stage), lastret(strings.ReplaceAll, 0)) && arg2 == pathjoin(old(dirs.Final), lastret(strings.ReplaceAll, 0))
 //@   before call log.NewFileIO assert log-root-from-escaped-source: called(strings.ReplaceAll) && lastarg(strings.ReplaceAll, 0) == source && lastarg(strings.ReplaceAll, 1) == pathSep && arg0 == pathjoin(dirs.LogIn, lastret(strings.ReplaceAll, 0))
+//@   before call stage.New assert source-directories-are-not-shared: !contains(source, old(pathSepRepl))
 //@   on return assert one-escape: ncalls(strings.ReplaceAll) == 1 && ncalls(stage.New) == 1 && ncalls(log.NewFileIO) == 1
 //@   modifies everything
 
